@@ -136,6 +136,7 @@ func init() {
 			{Name: "scales", QShards: 4, TShards: 8, Run: c16Scales},
 			{Name: "tilings", QShards: 4, TShards: 8, Run: c16Tilings},
 			{Name: "covered", TShards: 4, Run: c16Covered},
+			{Name: "manyprocs", QShards: 2, TShards: 4, Run: c16ManyProcs},
 		},
 	})
 }
@@ -939,6 +940,57 @@ func c16Covered(c *Ctx) {
 				k.Count("covered_indexes", 1)
 				k.Count("queries_under_cover", int64(len(qs)))
 				k.Nontrivial([]byte(fmt.Sprint("covered", d, layout)), []byte(fmt.Sprint(starts[:min(len(starts), 30)])))
+			})
+			idx++
+		}
+	}
+}
+
+// c16ManyProcs: tens of thousands of disjoint features (32 769 … 70 003: more
+// than 2^16 distinct coordinates) indexed with GOMAXPROCS set to 3, 4, 5 and 7
+// — an index that is built by several workers splits its pieces by the number
+// of CPUs, and the counts above leave every remainder. Queried at the edges of
+// the first and the LAST features (where a dropped remainder would be) and at a
+// sample in between, against the closed-form answer.
+func c16ManyProcs(c *Ctx) {
+	sizes := []int{32769, 40001, 65537, 70001, 70002, 70003}
+	if c.Thorough {
+		sizes = append(sizes, 131073, 200003, 1<<20+7)
+	}
+	idx := int64(0)
+	for _, n := range sizes {
+		for _, procs := range []int{3, 4, 5, 7} {
+			c.Case(idx, func(k *K) {
+				r := k.Rand()
+				starts, ends := make([]int, n), make([]int, n)
+				for x := 0; x < n; x++ {
+					starts[x], ends[x] = 10*x, 10*x+5
+				}
+				k.Input("intervals", n)
+				k.Input("GOMAXPROCS", procs)
+				old := runtime.GOMAXPROCS(procs)
+				ix := regions.NewIndex(starts, ends)
+				runtime.GOMAXPROCS(old)
+				var xs []int
+				for d := 0; d < 12; d++ {
+					xs = append(xs, d, n-1-d, r.IntN(n))
+				}
+				for _, x := range xs {
+					for _, q := range []int{10*x - 1, 10 * x, 10*x + 4, 10*x + 5} {
+						var want []int
+						if q >= 0 && q%10 < 5 && q/10 < n {
+							want = []int{q / 10}
+						}
+						if got := ix.At(q); !sameInts(got, want) {
+							k.Failf("at", "index over %d disjoint intervals built with GOMAXPROCS=%d: At(%d) = %v, want %v", n, procs, q, got, want)
+							return
+						}
+						k.Count("queries", 1)
+						k.Evals(1)
+					}
+				}
+				k.Count("indexes_built", 1)
+				k.Nontrivial([]byte(fmt.Sprint("manyprocs", n, procs)))
 			})
 			idx++
 		}
